@@ -8,9 +8,9 @@ CONSTANTS
   ImgNames = {"ext"}
   IdPool = {"rId1", "rId40"}
   NamePool = {"image0.png", "image2.png"}
-  SlimDims = {}
-  SlimOps = {}
-  DimGroups = {}
+  SlimDims = {"xrel", "mix", "sty", "sdef", "sref"}
+  SlimOps = {"AddHeading", "AddFootnote", "Reopen"}
+  DimGroups = {{"base", "extra", "scheme", "ext", "media", "ns", "pkgns", "tgstyle", "pkgids", "cont", "blk"}, {"base", "extra", "scheme", "ext", "media", "tgstyle", "pkgids", "xrel"}, {"ns", "pkgns", "cont", "blk", "mix"}, {"base", "scheme", "sty", "sdef", "sref"}}
 INVARIANTS Inv_All Inv_DetectParts Inv_DetectRels Inv_ShapeWellFormed
 PROPERTIES Act_Frame
 CHECK_DEADLOCK FALSE
